@@ -345,7 +345,7 @@ def _worker(arg):
         return msg
 
     try:
-        fails = hyp_search(case_strategy(k), prop, n, seed, stats, classify=classify, shrink=False)
+        fails = hyp_search(case_strategy(k), prop, n, seed, stats, classify=classify, shrink=False, skip_first=1)
     finally:
         cleanup()
     return stats, fails
